@@ -4,6 +4,7 @@
    set-up ops are delegated to the `led` engine. -/
 import MW.Drv.Led
 import MW.Model.Proto
+import MW.Gen.Handler
 namespace MW.Drv.Proto
 open MW MW.Model.Ledger MW.Model.Proto
 
@@ -12,6 +13,7 @@ structure St where
   started : Bool := false
   dead : Bool := false          -- after a HANG the environment is abandoned until the next reset
   ext : List String := []
+  imported : List String := []  -- throw-away wallets already imported through the API (`fullq`)
   deriving Inhabited
 
 def init : St := {}
@@ -62,9 +64,97 @@ def placeKind (place : String) : Option (String × Nat) :=
   | ["blocks", n] => n.toNat?.map (fun k => ("handler", k))
   | _ => none
 
+/-- the `fullq` experiment of the harness (go/cmd/harness/eng_proto_fullq.go) run on the protocol model: the API queues
+    a first import, the worker takes it and completes the suspend hand-shake (it is inside its database step, the
+    follower parked in its wait); the API is called `n - 1` more times (accepted iff `aCheck` is enabled, then `aPush`,
+    or `aPushDrop` when the queue is full); the batch in hand ends with outcome `o` (`errRetry` / `more`: not finished),
+    the resume hand-shake completes and the worker puts its task back (`wPush`, or `wPushDrop` when the queue is full).
+    Result: `none` if the first call is refused; otherwise the accepted-flags of the `n` calls and the index of the
+    call whose task was lost at a full queue, if any. -/
+def fullQueue (sh : Shape) (c : Cfg) (n : Nat) (o : IOut) : Option (List Bool × Option Nat) := do
+  let s ← fire sh c .aCheck {}
+  let s ← fire sh c .aPush s
+  let s ← fire sh c .wTakeImp s
+  let s ← fire sh c .sus s
+  let (s, acc, lost) ← (List.range (n - 1)).foldlM (fun (x : MW.Model.Proto.St × List Bool × Option Nat) k =>
+    let (s, acc, lost) := x
+    match fire sh c .aCheck s with
+    | none => some (s, acc ++ [false], lost)
+    | some s1 =>
+      match fire sh c .aPush s1 with
+      | some s2 => some (s2, acc ++ [true], lost)
+      | none =>
+        match fire sh c .aPushDrop s1 with
+        | some s2 => some (s2, acc ++ [true], if lost.isSome then lost else some (k + 1))
+        | none => none) (s, [true], none)
+  let s ← fire sh c (.wCommitI o) s
+  let s ← fire sh c .res s
+  match fire sh c .wPush s with
+  | some _ => some (acc, lost)
+  | none => (fire sh c .wPushDrop s).map (fun _ => (acc, if lost.isSome then lost else some 0))
+
+def joinOrDash (l : List String) : String := if l.isEmpty then "-" else ",".intercalate l
+
+/-- `pfill K TAG`: K empty blocks on the node's tip, each announced to the (not yet started) follower -/
+def pfill (l : Led.St) (k : Nat) (tag : String) : Led.St × String := Id.run do
+  let mut l := l
+  for j in List.range k do
+    let tn := s!"c{tag}.{j+1}"
+    let bn := s!"{tag}.{j+1}"
+    let tip := (l.node.chain.getLast?.map (·.id)).getD "G"
+    let (l1, o1) := Led.step l ["tx", tn, "0", "cb", "X0:1"]
+    let (l2, o2) := Led.step l1 ["block", bn, tip, tn]
+    let (l3, o3) := Led.step l2 ["submit", bn]
+    if o1 != "ok" || o2 != "ok" || o3 != "ok" then return (l, "err")
+    let (l4, o4) := Led.step l3 ["notify", bn]
+    if !o4.startsWith "ok" then return (l3, "err-notify")
+    l := l4
+  return (l, "ok")
+
 def step (st : St) (args : List String) : St × String :=
   if st.dead then (st, "dead") else
   match args with
+  | ["pfill", ks, tag] =>
+    match ks.toNat? with
+    | some k => if st.started || k > 5000 then (st, "bad-op") else
+        let (l, o) := pfill st.led k tag; ({ st with led := l }, o)
+    | none => (st, "bad-op")
+  | ["fullq", ns, mode] =>
+    let names := ns.splitOn ";"
+    if !st.started || names.length < 2 || !names.all (fun n => st.ext.contains n && !st.imported.contains n) ||
+        names.eraseDups.length != names.length then (st, "bad-op") else
+    let tip := (st.led.node.chain.getLast?.map (·.id)).getD "?"
+    -- retry:B — the follower stands on B, the node has detached it; batches — the follower is at the node's tip,
+    -- more than one batch above the import cursor (0)
+    let setup : Option (Option String × IOut) :=
+      match mode.splitOn ":" with
+      | ["retry", b] =>
+        match AMap.get st.led.node.known b with
+        | some blk => if blk.prev == tip && blk.height == st.led.store.syncedTo then some (some b, .errRetry) else none
+        | none => none
+      | ["batches"] =>
+        if st.led.store.syncedTo > MW.Gen.Handler.importBatch && st.led.store.syncedTo + 1 == st.led.node.chain.length
+        then some (none, .more) else none
+      | _ => none
+    match setup with
+    | none => (st, "bad-op")
+    | some (reblk, o) =>
+      match fullQueue Shape.current (Cfg.current st.led.wallets.length) names.length o with
+      | none => (st, "rejected")
+      | some (flags, lost) =>
+        let tagged := names.zip flags
+        let acc := (tagged.filter (·.2)).map (·.1)
+        let rej := (tagged.filter (fun p => !p.2)).map (·.1)
+        let head := s!"acc={",".intercalate acc} rej={joinOrDash rej}"
+        let led := match reblk with
+          | some b => (Led.step st.led ["submit", b]).1
+          | none => st.led
+        match lost with
+        | none =>
+          ({ st with led := acc.foldl (fun l w => finishTask l "import" w) led, imported := st.imported ++ acc },
+           head ++ " finished\t" ++ head ++ " finished")
+        | some k =>
+          ({ st with dead := true }, s!"HANG {head} unfinished={names.getD k "?"}\t{head} finished")
   | ["ext", n] =>
     if st.ext.contains n then (st, "err") else ({ st with ext := st.ext ++ [n] }, "ok")
   | ["start"] =>
